@@ -371,12 +371,24 @@ fn collect_validator_entries_inner(
     path: &PathKey,
     out: &mut Vec<(PathKey, String)>,
 ) {
-    for (field, kind) in errors.errors() {
+    // Fixed order, as in `collect_validator_issues`: `ValidationErrors` keeps fields, and each
+    // entry its params, in `HashMap`s, so plain iteration (and `ValidationError`'s own `Display`,
+    // which prints the params map) would make the report differ between two identical calls.
+    let mut fields: Vec<_> = errors.errors().iter().collect();
+    fields.sort_by(|a, b| a.0.cmp(b.0));
+    for (field, kind) in fields {
         let field_path = path.clone().join(field.as_ref());
         match kind {
             ValidationErrorsKind::Field(entries) => {
                 for entry in entries {
-                    out.push((field_path.clone(), entry.to_string()));
+                    let text = match &entry.message {
+                        Some(msg) => msg.to_string(),
+                        None => {
+                            let params: std::collections::BTreeMap<_, _> = entry.params.iter().collect();
+                            format!("Validation error: {} [{:?}]", entry.code, params)
+                        }
+                    };
+                    out.push((field_path.clone(), text));
                 }
             }
             ValidationErrorsKind::Struct(inner) => {
